@@ -160,7 +160,27 @@ def gen_paths(seed, policy=None, behaviour=None):
         yield {"id": [seed, lazy], "scn": dict(scn, lazy=lazy, cache=rng.random() < 0.5), "seed": seed, "behaviour": beh, "policy": dict(policy or {})}
 
 
-explore.GENERATORS.update({"c13": gen_c13, "c16": gen_c16, "c09": gen_c09, "paths": gen_paths})
+def gen_pending(seed, policy=None):
+    """MANY pending steps in one simulator: a planner announces 10-14 future events for a sink in scrambled order (outputs dated
+    into the future), then one that is earlier than all of them; the sink has to perform them in chronological order."""
+    rng = random.Random(f"pending|{seed}")
+    n = rng.randint(9, 14)
+    perm = list(range(n))
+    rng.shuffle(perm)
+    table = []
+    for k in range(1, n + 2):                        # k-th step of the planner, at time k - 1
+        t = k - 1
+        table.append(["Sa", "step", k, t + 1 if k <= n else None])
+        ot = n + 1 + perm[t] if t < n else n         # the last announcement (time n) is earlier than everything pending
+        table.append(["Sa", "get_data", k, {"E0": {"e": f"Sa.{k}.e"}, "time": ot}])
+    scn = S.normalize({"sims": [{"sid": "Sa", "type": "event-based", "initev": True}, {"sid": "Sb", "type": rng.choice(["event-based", "hybrid"])}],
+                       "conns": [{"src": "Sa", "dst": "Sb", "sa": "e", "da": "ti"}], "until": 2 * n + 2})
+    beh = {"kind": "table", "table": table, "ev_next": [None], "p_event": 0.0, "p_future": 0.0}
+    for lazy in (True, False):
+        yield {"id": [seed, n, lazy], "scn": dict(scn, lazy=lazy, cache=rng.random() < 0.5), "seed": seed, "behaviour": beh, "policy": dict(policy or {})}
+
+
+explore.GENERATORS.update({"c13": gen_c13, "c16": gen_c16, "c09": gen_c09, "paths": gen_paths, "pending": gen_pending})
 
 # --------------------------------------------------------------------------- profiles
 
@@ -170,7 +190,8 @@ PROFILES = {
     "C02": [("random", {"fam": {"p_async": 0.1}, "behaviour": {"p_future": 0.4, "ev_next": [None, 1, 2, 3]}}),
             # (None, 0, "", False, lists and dictionaries are legal output VALUES: they trigger and travel like any other)
             ("random", {"fam": {"types": ["event-based", "hybrid"], "until": (3, 5)}, "behaviour": {"p_future": 0.5, "future": [0, 1, 2, 3], "p_none": 0.3}}),
-            ("random", {"fam": {"nsims": (8, 11), "nconns": (6, 14), "until": (2, 3), "weak": 0.2}, "frac": 0.08})],
+            ("random", {"fam": {"nsims": (8, 11), "nconns": (6, 14), "until": (2, 3), "weak": 0.2}, "frac": 0.08}),
+            ("pending", {"frac": 0.15})],
     "C03": [("random", {"fam": {"shifts": (0, 0, 1, 2, 3), "until": (3, 5), "p_two_entities": 0.4}}),
             ("random", {"fam": {"groups": False, "nsims": (2, 3), "until": (4, 6), "types": ["time-based", "time-based", "hybrid"]},
                         "behaviour": {"tb_next": [1, 1, 2, 3], "recur": 2}, "frac": 0.4}),
@@ -178,6 +199,7 @@ PROFILES = {
     "C05": [("random", {"fam": {"nsims": (2, 5), "nconns": (1, 7), "until": (2, 5), "p_async": 0.1}, "behaviour": {"p_none": 0.1}}),
             ("random", {"fam": {"shifts": (0, 1, 2, 3)}, "behaviour": {"p_future": 0.5, "future": [0, 1, 2, 3]}, "policy": {"early": 0.6}}),
             ("paths", {"frac": 0.3}),
+            ("pending", {"frac": 0.15}),
             # many simulators, sparse connections (heap / set / dictionary orders beyond a handful of simulators)
             ("random", {"fam": {"nsims": (8, 11), "nconns": (6, 14), "until": (2, 3), "weak": 0.2}, "frac": 0.08})],
     "C07": [("random", {"fam": {"types": ["event-based", "hybrid", "hybrid"], "until": (3, 5)}, "behaviour": {"ev_next": [None, 1, 2, 3]}}),
